@@ -329,6 +329,10 @@ pub struct Txn {
     /// nb: the application calls set_datarate(dr) after TxDone, before RX1 opens ("bound at TX time")
     #[serde(default)]
     pub nb_set_dr_mid: Option<u8>,
+    /// nb: the power is cut in the middle of the procedure (1 = after TxDone, before RX1 opens; 2 = between RX1 and
+    /// RX2); the application had stored the session at that moment and restores a fresh device from it (C20)
+    #[serde(default)]
+    pub nb_power_cut: Option<u8>,
 }
 
 #[derive(Clone, Debug, PartialEq, Eq, Serialize, Deserialize)]
@@ -527,6 +531,11 @@ fn simplify_txn(t: &Txn) -> Vec<Txn> {
         c.nb_timer_late_ms = 0;
         c.nb_spurious = 0;
         c.tx_ms = 0;
+        out.push(c);
+    }
+    if t.nb_power_cut == Some(2) {
+        let mut c = t.clone();
+        c.nb_power_cut = Some(1);
         out.push(c);
     }
     if t.nb_set_dr_mid.is_some() {
